@@ -148,7 +148,7 @@ Proof. intros H Hj. apply ut_elem. apply elem_gblock; assumption. Qed.
 (* `(a.x>b[c=1])*2+d##e` as tokens: a group of two attribute elements, repeated, then a sibling *)
 Example group_of_attribute_elements :
   let a := mkSElem [97%N] [PClass 0 [120%N]] None false in
-  let b := mkSElem [98%N] [PSet [mkSAttr false [99%N] false (SUnq [49%N])]] None false in
+  let b := mkSElem [98%N] [PSet [] (spaced [mkSAttr false [99%N] false (SUnq [49%N])])] None false in
   let d := mkSElem [100%N] [PId 1 [101%N]] None false in
   let br o p := mkTok (TBracket o BGroup) p (p + 1) in
   let op o p := mkTok (TOperator o) p (p + 1) in
@@ -166,6 +166,7 @@ Proof.
     + split; [apply Hw; reflexivity|]. split; [|exact I]. repeat constructor; discriminate.
     + apply gf_last. apply elem_group_unit; [|left; reflexivity].
       split; [apply Hw; reflexivity|]. split; [|exact I]. repeat constructor; try discriminate.
+      intros H0. exfalso. apply H0. reflexivity.
   - apply gf_last. apply elem_group_unit; [|left; reflexivity].
     split; [apply Hw; reflexivity|]. split; [|exact I]. repeat constructor; discriminate.
 Qed.
